@@ -552,7 +552,7 @@ def r01d(run):
                           message=f"{f.qualname}: `{norm_stmt(n.ast)[:80]}` stores `{unparse(e)[:40]}` which is not "
                                   f"(only) the result of a field / addition / positional parse ({why})",
                           necessity="the field or argument reaches the instance / the function body unconverted", node=n.ast)
-    run.floor("R01d", "stores into binding results", total, 8)
+    run.floor("R01d", "stores into binding results", total, 6)
 
 
 def check(run):
